@@ -18,6 +18,22 @@ FULL: history_well_formed, arith_acc_is_integral, weights_sum_to_interval, arith
 prune_preserves_answers_in_window, error_flagged_iff_interval_touches_error (+ the general form without
 the zero-price hypothesis), geom_eq_exp2_mean_log2 (exact, in terms of the model's exp2 / logBase2 /
 sigFigRound).
+SEVERAL POOLS / PAIRS (`World`, one `Store` per (pool, denom0, denom1); `endBlock` = the record loop of
+`Keeper.EndBlock` over the changed pools, logging-and-continuing on a pool's error; FULL, all worlds):
+endBlock_pool_independent (what a block does to pool B depends on pool B's stores and inputs only — not on
+which other pools changed, nor on whether their updates were rejected), endBlock_other_pool_irrelevant,
+changed_pool_gets_fresh_records (a pool whose update is acceptable on its own ends the block with a record at
+the block time carrying the block's prices, for every pair, whatever the other pools did),
+prune_world_pair_by_pair / prune_pair_leaves_other_pairs (a pass prunes every pair on its own records),
+prune_world_preserves_answers_in_window, world_history_well_formed (so every single-pair theorem above holds
+for every pair of every pool).
+STORE KEYS (the model's keys are structured; the byte layout is covered separately): the key constructors the
+keeper uses are REGENERATED from types/keys.go as token lists (`Gen.Twap.key_*`, tools/extract/gen_twap_keys.go) and
+interpreted by `Keys.build`; FULL over those: prune_range_selects_own_pair_before_cutoff (the reverse range scan
+of the pruning pass holds exactly the historical keys of ITS (pool, denom0, denom1) with a time string below the
+cutoff's — for all pool ids and denoms whose bytes stay below the separator, prefixes of each other included),
+lookup_range_selects_own_pair_up_to_time (getRecordAtOrBeforeTime), historical_key_injective, most_recent_key_injective.
+Assumed, not modelled: FormatTimeString is fixed-width and order preserving; the iterator order is bytes.Compare.
 PARTIAL (NOT theorems; decided by the engine's oracle against 700-bit references on the explored cases):
   * geom_vs_true_mean: |geometric TWAP − 2^(Σ wᵢ·log₂ pᵢ / Σ wᵢ)| within the stated precision — needs the
     analytic error bounds of Exp2 (rel 1e-18) and LogBase2 (abs 1e-32), which C13 does not prove either;
@@ -27,6 +43,8 @@ PARTIAL (NOT theorems; decided by the engine's oracle against 700-bit references
   (recorded findings F-C10a / F-C10b).
 -/
 import OsmoVerif.Proofs.TwapQuery
+import OsmoVerif.Proofs.TwapWorld
+import OsmoVerif.Proofs.TwapKeys
 import OsmoVerif.Proofs.NumLemmas
 
 namespace OsmoVerif.Props.C10
@@ -410,6 +428,202 @@ theorem geomFromDiff_eq (q0 : Bool) (S W : Int) (hS : S ≠ 0) (hW : W ≠ 0) :
 answered with zero: the source of finding F-C10a. -/
 theorem geomFromDiff_zero (q0 : Bool) (W : Int) : geomFromDiff q0 0 W = some 0 := rfl
 
+/-! ## several pools and pairs -/
+
+/-- **endBlock_pool_independent**: what the record loop of `EndBlock` does to the records of pool `B` is
+determined by pool `B`'s own stores before the block and pool `B`'s own entry in the block (whether it
+changed, the end-of-block prices of its pairs) — for ANY two worlds that agree on pool `B` and ANY two lists
+of changed pools with the same entries for `B`: which other pools changed, in which order, with which
+prices, and whether their updates were accepted or rejected, is irrelevant. -/
+theorem endBlock_pool_independent {B : Nat} {now height : Int} {w1 w2 w1' w2' : World} {c1 c2 : List PoolInput}
+    (hi1 : InputsOfOwnPool c1) (hi2 : InputsOfOwnPool c2) (hw : AgreeOn B w1 w2)
+    (hB : c1.filter (fun p => decide (p.pool = B)) = c2.filter (fun p => decide (p.pool = B)))
+    (h1 : endBlock now height w1 c1 = some w1') (h2 : endBlock now height w2 c2 = some w2') :
+    AgreeOn B w1' w2' := by
+  obtain ⟨a, ea, ha⟩ := endBlock_drop_others (B := B) hi1 h1
+  obtain ⟨b, eb, hb⟩ := endBlock_drop_others (B := B) hi2 h2
+  rw [hB] at ea
+  have hiF : InputsOfOwnPool (c2.filter fun p => decide (p.pool = B)) := fun q hq => hi2 q (List.mem_filter.mp hq).1
+  have hbF : ∀ q ∈ c2.filter (fun p => decide (p.pool = B)), q.pool = B := fun q hq => by
+    simpa using (List.mem_filter.mp hq).2
+  have r := endBlock_local (now := now) (height := height) hiF hbF hw
+  rw [ea, eb] at r
+  exact ha.trans (r.trans hb.symm)
+
+/-- a changed pool `A ≠ B` more or less in the block — accepted, or rejected (`record already exists for this
+time`, missing record, …) — leaves pool `B`'s records after the block the same. -/
+theorem endBlock_other_pool_irrelevant {B : Nat} {now height : Int} {w w1' w2' : World} {c : List PoolInput} {pA : PoolInput}
+    (hi : InputsOfOwnPool (pA :: c)) (hA : pA.pool ≠ B)
+    (h1 : endBlock now height w (pA :: c) = some w1') (h2 : endBlock now height w c = some w2') :
+    AgreeOn B w1' w2' :=
+  endBlock_pool_independent hi (fun q hq => hi q (List.mem_cons_of_mem _ hq)) (AgreeOn.refl B w)
+    (List.filter_cons_of_neg (by simpa using hA)) h1 h2
+
+/-- **changed_pool_gets_fresh_records**: if the update of changed pool `B` is acceptable on its own (run alone on
+the state before the block, `updateRecords` returns no error), then after the block — whatever the other
+changed pools did — every pair of `B` has a most recent record at the block time and height with the block's
+end-of-block prices of that pair. -/
+theorem changed_pool_gets_fresh_records {B : Nat} {now height : Int} {w w' wB : World} {c : List PoolInput} {p : PoolInput}
+    (hi : InputsOfOwnPool c) (hp : c.filter (fun q => decide (q.pool = B)) = [p])
+    (hd : (p.pairs.map (·.key)).Nodup)
+    (hacc : updateRecords w now height p.pairs = some (wB, false))
+    (h : endBlock now height w c = some w') :
+    ∀ i ∈ p.pairs, ∃ s n, w'.get i.key = some s ∧ s.recent = some n ∧ n.time = now ∧ n.height = height ∧
+      n.sp0 = i.sp0 ∧ n.sp1 = i.sp1 := by
+  have hpm : p ∈ c.filter (fun q => decide (q.pool = B)) := by rw [hp]; exact List.mem_cons_self
+  have hpc : p ∈ c := (List.mem_filter.mp hpm).1
+  have hpB : p.pool = B := by simpa using (List.mem_filter.mp hpm).2
+  have hi1 : InputsOfOwnPool [p] := fun q hq => by
+    rcases List.mem_cons.mp hq with e | e
+    · exact e ▸ hi p hpc
+    · cases e
+  have h2 : endBlock now height w [p] = some wB := by
+    unfold endBlock; rw [hacc]; rfl
+  have hf : [p].filter (fun q => decide (q.pool = B)) = [p] := List.filter_cons_of_pos (by simpa using hpB)
+  have ag := endBlock_pool_independent (B := B) hi hi1 (AgreeOn.refl B w) (by rw [hp, hf]) h h2
+  intro i hi'
+  obtain ⟨s, n, a, b⟩ := updateRecords_fresh hd hacc i hi'
+  exact ⟨s, n, by rw [ag i.key ((hi p hpc i hi').trans hpB)]; exact a, b⟩
+
+/-- **prune_world_pair_by_pair**: a completed pruning pass prunes every pair's index on its own records: the
+stores of a pair after the pass are a function of that pair's stores before it (no record of any other
+pair, of this or another pool, is read or removed). -/
+theorem prune_world_pair_by_pair (w : World) (lastKept : Int) (k : PairKey) :
+    (pruneWorld w lastKept).get k = (w.get k).map fun s => prune s lastKept := pruneWorld_get w lastKept k
+
+/-- the pass on one pair leaves every record of every other pair untouched. -/
+theorem prune_pair_leaves_other_pairs (w : World) {k k' : PairKey} (lastKept : Int) (h : k' ≠ k) :
+    (prunePair w k lastKept).get k' = w.get k' := prunePair_get_other w lastKept h
+
+/-- **prune_world_preserves_answers_in_window**: a completed pass changes no answer of any pair of any pool
+for a query starting at or after the cutoff. -/
+theorem prune_world_preserves_answers_in_window {w : World} (hw : WorldWF w) (k : PairKey)
+    {lastKept now a b : Int} {q0 : Bool} {st : Strategy} (ha : lastKept ≤ a) :
+    getTwapW (pruneWorld w lastKept) k now a b q0 st = getTwapW w k now a b q0 st := by
+  unfold getTwapW
+  rw [pruneWorld_get]
+  cases hk : w.get k with
+  | none => rfl
+  | some s => exact prune_preserves_answers_in_window (hw k s hk) ha
+
+/-- every world history is well formed pair by pair: pool creations (new pools: new keys), blocks (any changed
+pools, accepted or rejected updates), pruning passes.  So every theorem above about one pair's `Store` holds for
+every pair of every pool of a world. -/
+theorem world_history_well_formed :
+    WorldWF [] ∧
+    (∀ {w : World} {now height : Int} {is : List PairInput}, WorldWF w → zeroTime ≤ now →
+      (∀ i ∈ is, w.get i.key = none) → (is.map (·.key)).Nodup → WorldWF (createPairs w now height is)) ∧
+    (∀ {w w' : World} {now height : Int} {c : List PoolInput}, WorldWF w → endBlock now height w c = some w' → WorldWF w') ∧
+    (∀ {w : World} (lastKept : Int), WorldWF w → WorldWF (pruneWorld w lastKept)) :=
+  ⟨fun _ _ h => (by cases h),
+   fun {_ _ _ _} hw hz hn hd => WorldWF.createPairs hz hw hn hd,
+   fun {_ _ _ _ _} hw h => WorldWF.endBlock hw h,
+   fun c hw => WorldWF.pruneWorld hw c⟩
+
+/-! ## the byte layout of the store keys
+
+`Gen.Twap.key_*` are regenerated from x/twap/types/keys.go (and from which constructor `StoreHistoricalTWAP`,
+`pruneRecordsBeforeTimeButNewest`, `getRecordAtOrBeforeTime` pass to the store): a changed format string, a dropped
+separator, another constructor changes these definitions and the theorems are re-checked against the new ones.
+`Below sep x`: no byte of `x` reaches the separator (decimal pool ids, valid denoms, the sortable time format). -/
+
+section keys
+open OsmoVerif.Twap.Keys
+
+/-- `Keys.sepByte` is the byte of the regenerated `KeySeparator`. -/
+theorem sepByte_is_KeySeparator : ofString Gen.Twap.KeySeparator = [sepByte] := by decide +kernel
+
+/-- **prune_range_selects_own_pair_before_cutoff**: the range `[start, end)` of the pruning pass for (pool, d0, d1)
+and cutoff time string `a.time` contains the historical key of a record (k.pool, k.d0, k.d1, k.time) iff it is a
+record of the SAME pool and pair and its time string is below the cutoff's.  No record of another pair — a denom
+that extends `d1`, a pool id that extends `pool` — is ever in the range. -/
+theorem prune_range_selects_own_pair_before_cutoff {a k : Args} {lo hi key : Bytes}
+    (ha1 : Below sepByte a.pool) (ha2 : Below sepByte a.d0) (ha3 : Below sepByte a.d1)
+    (hk1 : Below sepByte k.pool) (hk2 : Below sepByte k.d0) (hk3 : Below sepByte k.d1)
+    (hlo : build a Gen.Twap.key_pruneStart = some lo) (hhi : build a Gen.Twap.key_pruneEnd = some hi)
+    (hkey : build k Gen.Twap.key_hist = some key) :
+    (¬ lt key lo ∧ lt key hi) ↔ (k.pool = a.pool ∧ k.d0 = a.d0 ∧ k.d1 = a.d1 ∧ lt k.time a.time) := by
+  have hs : ofString "|" = [sepByte] := by decide +kernel
+  simp only [Gen.Twap.key_pruneStart, Gen.Twap.key_pruneEnd, Gen.Twap.key_hist, build, tok, hs] at hlo hhi hkey
+  simp at hlo hhi hkey
+  subst hlo hhi hkey
+  generalize ofString "historical_pool_index|" = P
+  have := three_field_range (sep := sepByte) (P := P) (kt := k.time) (t := a.time) ha1 ha2 ha3 hk1 hk2 hk3
+  simpa only [List.append_assoc, List.cons_append, List.nil_append, List.append_nil] using this
+
+/-- **lookup_range_selects_own_pair_up_to_time**: the range of `getRecordAtOrBeforeTime` for (pool, d0, d1, t) contains
+the historical key of a record iff it is a record of the same pool and pair whose time string is not above `t`'s
+(time strings have one width). -/
+theorem lookup_range_selects_own_pair_up_to_time {a k : Args} {lo hi key : Bytes}
+    (ha1 : Below sepByte a.pool) (ha2 : Below sepByte a.d0) (ha3 : Below sepByte a.d1)
+    (hk1 : Below sepByte k.pool) (hk2 : Below sepByte k.d0) (hk3 : Below sepByte k.d1)
+    (hlen : k.time.length = a.time.length)
+    (hlo : build a Gen.Twap.key_lookupStart = some lo) (hhi : build a Gen.Twap.key_lookupEnd = some hi)
+    (hkey : build k Gen.Twap.key_hist = some key) :
+    (¬ lt key lo ∧ lt key hi) ↔ (k.pool = a.pool ∧ k.d0 = a.d0 ∧ k.d1 = a.d1 ∧ ¬ lt a.time k.time) := by
+  have hs : ofString "|" = [sepByte] := by decide +kernel
+  simp only [Gen.Twap.key_lookupStart, Gen.Twap.key_lookupEnd, Gen.Twap.key_hist, build, tok, hs] at hlo hhi hkey
+  simp at hlo hhi hkey
+  subst hlo hhi hkey
+  generalize ofString "historical_pool_index|" = P
+  generalize hd : ofString "." = dot
+  have hdot : ∃ c, dot = [c] := ⟨46, by rw [← hd]; decide +kernel⟩
+  obtain ⟨c, hc⟩ := hdot
+  subst hc
+  have := three_field_range (sep := sepByte) (P := P) (kt := k.time) (t := a.time ++ [c]) ha1 ha2 ha3 hk1 hk2 hk3
+  rw [lt_snoc_of_same_length c hlen] at this
+  simpa only [List.append_assoc, List.cons_append, List.nil_append, List.append_nil] using this
+
+/-- one historical key per (pool, pair, time string). -/
+theorem historical_key_injective {a k : Args} {x : Bytes}
+    (ha1 : Below sepByte a.pool) (ha2 : Below sepByte a.d0) (ha3 : Below sepByte a.d1)
+    (hk1 : Below sepByte k.pool) (hk2 : Below sepByte k.d0) (hk3 : Below sepByte k.d1)
+    (h1 : build a Gen.Twap.key_hist = some x) (h2 : build k Gen.Twap.key_hist = some x) :
+    k.pool = a.pool ∧ k.d0 = a.d0 ∧ k.d1 = a.d1 ∧ k.time = a.time := by
+  have hs : ofString "|" = [sepByte] := by decide +kernel
+  simp only [Gen.Twap.key_hist, build, tok, hs] at h1 h2
+  simp at h1 h2
+  rw [← h2] at h1
+  have e := List.append_cancel_left h1
+  obtain ⟨e1, e⟩ := field_unique ha1 hk1 e
+  obtain ⟨e2, e⟩ := field_unique ha2 hk2 e
+  obtain ⟨e3, e4⟩ := field_unique ha3 hk3 e
+  exact ⟨e1.symm, e2.symm, e3.symm, e4.symm⟩
+
+/-- one most recent key per (pool, pair). -/
+theorem most_recent_key_injective {a k : Args} {x : Bytes}
+    (ha1 : Below sepByte a.pool20) (ha2 : Below sepByte a.d0) (hk1 : Below sepByte k.pool20) (hk2 : Below sepByte k.d0)
+    (h1 : build a Gen.Twap.key_recent = some x) (h2 : build k Gen.Twap.key_recent = some x) :
+    k.pool20 = a.pool20 ∧ k.d0 = a.d0 ∧ k.d1 = a.d1 := by
+  have hs : ofString "|" = [sepByte] := by decide +kernel
+  simp only [Gen.Twap.key_recent, build, tok, hs] at h1 h2
+  simp at h1 h2
+  rw [← h2] at h1
+  have e := List.append_cancel_left h1
+  obtain ⟨e1, e⟩ := field_unique ha1 hk1 e
+  obtain ⟨e2, e3⟩ := field_unique ha2 hk2 e
+  exact ⟨e1.symm, e2.symm, e3.symm⟩
+
+/-- non-vacuity, on denoms that extend each other (uusd / uusdc) and pool ids that extend each other (1 / 10): the pruning
+range of (1, uatom, uusd) with cutoff 2030-01-03 holds the older record of its own pair, not the newer one, and no
+record of (1, uatom, uusdc) or (10, uatom, uusd); a start key WITHOUT the trailing separator would hold the
+(1, uatom, uusdc) record. -/
+example :
+    let mk (pool d0 d1 time : String) : Args := ⟨ofString pool, [], ofString d0, ofString d1, ofString time⟩
+    let a := mk "1" "uatom" "uusd" "2030-01-03T00:00:00.000000000"
+    let inRange (k : Args) (start : List (String × String)) : Bool :=
+      match build a start, build a Gen.Twap.key_pruneEnd, build k Gen.Twap.key_hist with
+      | some lo, some hi, some key => decide (¬ lt key lo ∧ lt key hi)
+      | _, _, _ => false
+    inRange (mk "1" "uatom" "uusd" "2030-01-02T00:00:00.000000000") Gen.Twap.key_pruneStart = true ∧
+    inRange (mk "1" "uatom" "uusd" "2030-01-04T00:00:00.000000000") Gen.Twap.key_pruneStart = false ∧
+    inRange (mk "1" "uatom" "uusdc" "2030-01-02T00:00:00.000000000") Gen.Twap.key_pruneStart = false ∧
+    inRange (mk "10" "uatom" "uusd" "2030-01-02T00:00:00.000000000") Gen.Twap.key_pruneStart = false ∧
+    inRange (mk "1" "uatom" "uusdc" "2030-01-04T00:00:00.000000000") (Gen.Twap.key_pruneStart.dropLast) = true := by
+  decide +kernel
+
+end keys
+
 /-! ## recorded findings: the zero accumulator difference -/
 
 /-- F-C10a witness: a pool whose price is exactly 1 (log₂ = 0) for 5 s: the geometric TWAP is reported as
@@ -449,5 +663,37 @@ example :
     weights s.hist (canonicalMs 1000000000) (canonicalMs 5000000000) =
       [(⟨1000000000, 1, 4 * P18, P18 / 4, 0, 0, 0, zeroTime⟩, 2000),
        (⟨3000000000, 2, P18, P18, 8000 * P18, 500 * P18, 4000 * P18, zeroTime⟩, 2000)] := by decide +kernel
+
+/-- two pools, two blocks with the SAME timestamp: pool 1 (two pairs, one denom a prefix of the other) changed in
+both blocks — its second update is rejected and its records stay; pool 2 changed only in the second block and
+gets its record there.  The block without pool 1 leaves pool 2 with the same stores. -/
+example :
+    let P : Int := P18
+    let k1a : PairKey := ⟨1, "uatom", "uusd"⟩
+    let k1b : PairKey := ⟨1, "uatom", "uusdc"⟩
+    let k1c : PairKey := ⟨1, "uusd", "uusdc"⟩
+    let k2 : PairKey := ⟨2, "uusd", "uusdc"⟩
+    let w0 := createPairs (createPairs [] 1000000000 1 [⟨k1a, 2 * P, P / 2, false⟩, ⟨k1b, 4 * P, P / 4, false⟩, ⟨k1c, 2 * P, P / 2, false⟩])
+      1000000000 1 [⟨k2, P, P, false⟩]
+    let in1 : PoolInput := ⟨1, [⟨k1a, 3 * P, P / 3, false⟩, ⟨k1b, 5 * P, P / 5, false⟩, ⟨k1c, 2 * P, P / 2, false⟩]⟩
+    let in2 : PoolInput := ⟨2, [⟨k2, 8 * P, P / 8, false⟩]⟩
+    ((endBlock 3000000000 2 w0 [in1]).bind fun w1 =>
+      (endBlock 3000000000 3 w1 [in1, in2]).bind fun w2 =>
+      (endBlock 3000000000 3 w1 [in2]).map fun w2' =>
+        decide (
+          (updateRecords w1 3000000000 3 in1.pairs).map (·.2) = some true ∧      -- pool 1 is rejected in the second block
+          w2.get k1a = w1.get k1a ∧ w2.get k1b = w1.get k1b ∧ w2.get k1c = w1.get k1c ∧
+          ((w2.get k2).bind (·.recent)).map (fun r => (r.time, r.height, r.sp0)) = some (3000000000, 3, 8 * P) ∧
+          w2.get k2 = w2'.get k2 ∧
+          getTwapW (pruneWorld w2 3000000000) k1b 5000000000 3000000000 5000000000 true .arithmetic = .ok (5 * P, false) ∧
+          getTwapW (pruneWorld w2 3000000000) k2 5000000000 3000000000 5000000000 true .arithmetic = .ok (8 * P, false) ∧
+          (pruneWorld w2 3000000000).get k2 = (w2.get k2).map (fun s => prune s 3000000000))) = some true := by
+  decide +kernel
+
+/-- the order in which `updateRecords` visits a pool's pairs is the byte order of the most recent keys: with the
+separator above every denom character a denom sorts AFTER its own extensions. -/
+example :
+    (sortByRecentKey [⟨⟨1, "uusd", "zzz"⟩, 0, 0, false⟩, ⟨⟨1, "uusdc", "zzz"⟩, 0, 0, false⟩, ⟨⟨1, "uusd", "uusdc"⟩, 0, 0, false⟩]).map
+      (fun i => (i.key.d0, i.key.d1)) = [("uusdc", "zzz"), ("uusd", "uusdc"), ("uusd", "zzz")] := by decide +kernel
 
 end OsmoVerif.Props.C10
